@@ -9,7 +9,8 @@
                position: object/array/null is rejected there).  Needs no model fidelity.
      StrongOK  a new diagnostic only appears where another one went away (a diagnostic types its
                operand any and so masks later ones).  Informational: "masked" records.
-     ModelOK   the real outputs equal ExprSema!Check (code-as-read or intended variant), or the
+     ModelOK   the real outputs equal ExprSema!Check (code as read = design, or the model with the
+               disabled deviation FilterAnyProp: a regression, still a violation through PropOK), or the
                prediction recorded with the vector (mk = "pred").  A difference alone is model drift.
 
    Records: [a, b, ka, kb, mk] + (mk = "tree": e1, e2, g1, g2) + (mk = "pred": p1, p2, q1, q2, k1, k2, j1, j2) *)
@@ -33,7 +34,7 @@ ModelOK(r) ==
   CASE r.mk = "tree" ->
          LET x2 == IF r.e2.k = "same" THEN r.e1 ELSE r.e2 IN
          IF Same(r, S!Run(r.e1, r.g1, S!AllDev), S!Run(x2, r.g2, S!AllDev)) THEN TRUE
-         ELSE Same(r, S!Run(r.e1, r.g1, {}), S!Run(x2, r.g2, {}))
+         ELSE Same(r, S!Run(r.e1, r.g1, S!KnownDev), S!Run(x2, r.g2, S!KnownDev))   \* regression of a fixed deviation
     [] r.mk = "pred" ->
          IF SetOf(r.a) = SetOf(r.p1) /\ SetOf(r.b) = SetOf(r.p2) /\ r.ka = r.k1 /\ r.kb = r.k2 THEN TRUE
          ELSE SetOf(r.a) = SetOf(r.q1) /\ SetOf(r.b) = SetOf(r.q2) /\ r.ka = r.j1 /\ r.kb = r.j2
